@@ -421,4 +421,49 @@ func checkC20(job *Job, res *Result) {
 		}
 	}
 	res.Bounds["configurations"] = len(cfgs)
+	if job.Shard == 0 && job.Replay == nil {
+		c20Scales(job, res)
+	}
+}
+
+// c20Scales: the radius on a scale of its own - from a quarter of a metre to 2000 km, one
+// neighbour at 0.4 r (reported) and one at 1.5 r (not reported), at three latitudes.
+func c20Scales(job *Job, res *Result) {
+	for _, r := range []float64{0.1, 0.25, 0.28, 0.3, 1, 25, 1000, 2e6} {
+		for _, lat := range []float64{0, 33, 70} {
+			r, lat := r, lat
+			viol := func(sig, detail string) {
+				res.Violate("C20/scale:"+sig, fmt.Sprintf("%s  [radius %g m at latitude %g]", detail, r, lat), map[string]any{"radius": r, "lat": lat})
+			}
+			x := runExec(job, freezeAllBut(), func(x *Exec) {
+				in := x.Start("L", x.dir+"/L", 9001, nil)
+				c := x.Dial(in.Addr)
+				c.Do("SETCHAN", "roam", "NEARBY", "fleet", "FENCE", "ROAM", "fleet", "*", fnum(r))
+				sub := x.Dial(in.Addr)
+				sub.Send(respCmd("SUBSCRIBE", "roam"))
+				vsched.Quiesce()
+				deg := func(m float64) float64 { return m / c20R * 180 / math.Pi }
+				c.Do("SET", "fleet", "near", "POINT", fnum(lat+deg(0.4*r)), "-112")
+				c.Do("SET", "fleet", "far", "POINT", fnum(lat-deg(1.5*r)), "-112")
+				vsched.Quiesce()
+				drainMessages(sub)
+				c.Do("SET", "fleet", "m", "POINT", fnum(lat), "-112")
+				vsched.Quiesce()
+				var ids []string
+				for _, m := range drainMessages(sub) {
+					for _, g := range reRoam.FindAllStringSubmatch(m, -1) {
+						ids = append(ids, g[1]+":"+g[2])
+					}
+				}
+				res.Evaluations++
+				res.DistinctS(fmt.Sprint("scale", r, lat, ids))
+				if strings.Join(ids, " ") != "nearby:near" {
+					viol("neighbours", fmt.Sprintf("a neighbour at 0.4 r and one at 1.5 r: the fence reported %v, expected [nearby:near]", ids))
+				}
+			})
+			if len(x.Crashes) > 0 || x.Err != "" {
+				viol("hang-or-crash", fmt.Sprint(x.Err, x.Crashes))
+			}
+		}
+	}
 }
